@@ -58,17 +58,19 @@ theorem C08_src_approximation (f : List Int) (t : Int) (hs : f.Pairwise (· ≤ 
     AC.Gen.Program.heuristicApproximationSuggest f t = suggestApprox f t :=
   AC.HeurTie.approx_tie f t hs
 
-/-- the translated strategies `binary`, `co_binary`, `dichotomic`, `dyadic`, `fermat` of contfrac.go (the last two:
-    loops on a fuel counter, never exhausted) propose exactly the
+/-- all seven translated strategies of contfrac.go (`dyadic`, `fermat`, `total`: loops on a fuel counter, never
+    exhausted; `sqrt` through the primitive `bSqrt`) propose exactly the
     model's k (every non-negative n) -/
 theorem C08_src_strategies (n : Int) (hn : 0 ≤ n) :
     AC.Gen.Program.contfracBinaryStrategyK n = some (Strategy.K .binary n) ∧
     AC.Gen.Program.contfracCoBinaryStrategyK n = some (Strategy.K .coBinary n) ∧
     AC.Gen.Program.contfracDichotomicStrategyK n = some (Strategy.K .dichotomic n) ∧
     AC.Gen.Program.contfracDyadicStrategyK n = some (Strategy.K .dyadic n) ∧
-    AC.Gen.Program.contfracFermatStrategyK n = some (Strategy.K .fermat n) :=
+    AC.Gen.Program.contfracFermatStrategyK n = some (Strategy.K .fermat n) ∧
+    AC.Gen.Program.contfracTotalStrategyK n = some (Strategy.K .total n) ∧
+    AC.Gen.Program.contfracSqrtStrategyK n = some (Strategy.K .sqrt n) :=
   ⟨AC.HeurTie.binaryK_tie n, AC.HeurTie.coBinaryK_tie n hn, AC.HeurTie.dichotomicK_tie n hn,
-    AC.HeurTie.dyadicK_tie n hn, AC.HeurTie.fermatK_tie n hn⟩
+    AC.HeurTie.dyadicK_tie n hn, AC.HeurTie.fermatK_tie n hn, AC.HeurTie.totalK_tie n, AC.HeurTie.sqrtK_tie n hn⟩
 
 /-- the translated `DeltaLargest.Suggest` panics exactly when the target does not exceed the last
     element and otherwise suggests the difference -/
